@@ -48,6 +48,7 @@ class C15(PropBase):
         if any(s.get("loadavg") for s in subs):
             scn["opts"]["-l"] = "-l 1"
         scn["project"] = gen_project_mode(rng, proj["units"], 0.2)
+        scn["suppr_via"] = rng.choice(["cmdline", "cmdline", "cmdline", "list", "xml"])
         if rng.chance(0.15):
             # a critical error (the unit cannot be analysed), suppressed in one of the documented ways, with and without --safety:
             # in safety mode a suppressed critical error still decides the exit status
@@ -65,6 +66,9 @@ class C15(PropBase):
             scn["tree"][u] = scn["tree"][u] + [chunk]
             if rng.chance(0.7):
                 scn["opts"]["--safety"] = "--safety"
+        scn["nofail_cover"] = rng.choice([None, None, None, None, None, "all", "all", "but-one"])
+        if scn["nofail_cover"] and scn["exitcode"] is None:
+            scn["exitcode"] = 37
         return scn
 
     def execute(self, scn, wd):
